@@ -13,6 +13,7 @@ type factDTO struct {
 	I16   int16
 	I32   int32
 	I64   int64
+	Base  Base
 	I     int
 	U8    uint8
 	U16   uint16
@@ -56,7 +57,7 @@ type factDTO struct {
 
 // MarshalJSON implements json.Marshaler.
 func (f *Fact) MarshalJSON() ([]byte, error) {
-	d := factDTO{I8: f.I8, I16: f.I16, I32: f.I32, I64: f.I64, I: f.I, U8: f.U8, U16: f.U16, U32: f.U32, U64: f.U64, U: f.U,
+	d := factDTO{Base: f.Base, I8: f.I8, I16: f.I16, I32: f.I32, I64: f.I64, I: f.I, U8: f.U8, U16: f.U16, U32: f.U32, U64: f.U64, U: f.U,
 		F32: f.F32, F64: f.F64, S: f.S, S2: f.S2, B: f.B, B2: f.B2, T: f.T, T2: f.T2, PI: f.PI, PF: f.PF, Sub: f.Sub, Val: f.Val,
 		Arr: f.Arr, Arr32: f.Arr32, FArr: f.FArr, SArr: f.SArr, BArr: f.BArr, RO: f.RO, ROM: f.ROM, NB: bool(f.NB), Subs: f.Subs,
 		M: f.M, MF: f.MF, MS: f.MS, MB: f.MB, MI: f.MI, MSub: f.MSub, Log: f.Log, H: f.H}
@@ -80,7 +81,7 @@ func (f *Fact) UnmarshalJSON(b []byte) error {
 	if err := json.Unmarshal(b, &d); err != nil {
 		return err
 	}
-	*f = Fact{I8: d.I8, I16: d.I16, I32: d.I32, I64: d.I64, I: d.I, U8: d.U8, U16: d.U16, U32: d.U32, U64: d.U64, U: d.U,
+	*f = Fact{Base: d.Base, I8: d.I8, I16: d.I16, I32: d.I32, I64: d.I64, I: d.I, U8: d.U8, U16: d.U16, U32: d.U32, U64: d.U64, U: d.U,
 		F32: d.F32, F64: d.F64, S: d.S, S2: d.S2, B: d.B, B2: d.B2, T: d.T, T2: d.T2, PI: d.PI, PF: d.PF, Sub: d.Sub, Val: d.Val,
 		Arr: d.Arr, Arr32: d.Arr32, FArr: d.FArr, SArr: d.SArr, BArr: d.BArr, RO: d.RO, ROM: d.ROM, NB: Switch(d.NB), Subs: d.Subs,
 		M: d.M, MF: d.MF, MS: d.MS, MB: d.MB, MI: d.MI, MSub: d.MSub, Log: d.Log, H: d.H}
